@@ -46,6 +46,16 @@ def run_demo(demo, tree, workdir, outdir):
                 else:
                     shutil.copy(src_p, dst_p)
     env = dict(os.environ, PYTHONPATH=tree + os.pathsep + env_dir, DEPCCG_TREE=tree)
+    for i_ in range(1, 21):
+        env['C%02d_WORKTREE' % i_] = tree
+    # demonstrations that locate the tree relative to their own directory (<out>/../Cxx)
+    m_ = re.search(r'(C\d\d)_out', outdir)
+    if m_:
+        link = os.path.join(workdir, m_.group(1))
+        if os.path.islink(link):
+            os.unlink(link)
+        if not os.path.exists(link):
+            os.symlink(tree, link)
     d2 = os.path.join(env_dir, os.path.basename(demo))
     if demo.endswith('.py'):
         return sh(['/venv/bin/python', d2], cwd=tree, env=env, timeout=900)
